@@ -132,16 +132,22 @@ def list_line(fam, number, data, listo, state):
         if b == 0xF5 and listo & 4: opens += 1
         if b == 0xFD and listo & 4: closes += 1
     state['indent'] -= 2 * closes
+    if state['indent'] < 0:
+        state['went_negative'] = True
+        if state.get('clamp'):
+            state['indent'] = 0
     if state['indent'] > 0: out += b' ' * state['indent']
     out += body + b'\n'
     state['indent'] += 2 * opens
     return bytes(out)
 
-def list_program(dialect, data, listo, strict=False):
+def list_program(dialect, data, listo, strict=False, clamp=False, info=None):
     """Returns listing bytes or raises Invalid.  With strict=True inputs the
     documents leave open raise Ambiguous instead of being listed."""
     fam = FAMILY[dialect]
-    out = bytearray(); state = {'indent': 0, 'strict': strict}
+    out = bytearray(); state = {'indent': 0, 'strict': strict, 'clamp': clamp}
+    if info is not None:
+        info['state'] = state
     if len(data) == 0: return b''
     p = 0
     if dialect in BE:
